@@ -1,5 +1,853 @@
 import DesperModel.Dict
 import DesperModel.Proto
+/-
+  Model of the world loader: `desper/model/world.py` and the part of `desper/logic/world.py`
+  it drives.
+
+  Mirrors (line numbers of the tree after the `fix:` commits 1bc36b3 and feef4cd):
+    OBJECT/RESOURCE/HANDLE_STRING_REGEX + `re.match`    model/world.py:14-16   (`reMatch`)
+    WorldHandle.load                                     model/world.py:43-60   (`loadHandle`)
+    populate_world_from_dict                             model/world.py:63-112  (`populate`)
+    WorldFromFileTransformer.__call__                    model/world.py:127-141 (`fileTransformer`,
+                                                                                `transformDesc`)
+    WorldFromFileTransformer._apply_transformers         model/world.py:143-160 (`applyTransformers`)
+    _copy_containers                                     model/world.py:163-177 (no effect, see there)
+    default_processors_transformer                       model/world.py:180-190 (`defaultProcessors`)
+    WorldFromFileHandle.__init__                         model/world.py:206-215 (`loadFile`)
+    type_dict_transformer                                model/world.py:251-264 (`typeT`)
+    object_dict_transformer                              model/world.py:267-293 (`objectMap`, `objectT`)
+    resource_dict_transformer                            model/world.py:296-350 (`resourceMap`, `resourceT`)
+    World.create_entity                                  logic/world.py  (`createEntity`)
+    World.remove_component (exact type)                  logic/world.py  (`removeComponent`)
+    World.add_processor / remove_processor (exact type)  logic/world.py  (`addProcessor`,
+                                                                         `removeProcessor`)
+    World._on_single_dispatch                            logic/world.py  (`callMapped`)
+    EventDispatcher.dispatch / dispatch_enabled setter   events.py:97-139       (`emit`, `deliver`,
+                                                                                `setEnabled`)
+
+  Parameters of the model (given as tables by the scenario, quantified over by the theorems):
+    `resolve`   : `object_from_string`  (importlib + getattr chain, lru_cache)
+    `getItem`   : `root_map[path]`      (loaded value of a handle / a sub-map / KeyError)
+    `getHandle` : `root_map.get(path)`  (handle / sub-map / None)
+    `inTree`    : whether climbing `.parent` from the world handle ends in a ResourceMap
+    `info`      : what the `class` statements of the program say (Processor or not, `__events__`,
+                  `priority`)
+  Strings are `List Char` so that every function reduces in the kernel.
+
+  Constructors of components and processors are opaque to desper: an instance is the record of
+  the class and of the positional and keyword arguments it was built from.  Callbacks are passive
+  log entries (the loader never reacts to them).
+
+  Not modelled: `json.load` (the description is given parsed), `importlib`, `lru_cache`, the
+  `_components` index of the world (C01), `process`.
+-/
 namespace Desper.Loader
-def runScenario (_lines : List String) : List String := ["not-implemented"]
+open Desper
+
+abbrev Str := List Char
+abbrev Exc := String
+
+/-! ### the three regular expressions, used with `re.match` (model/world.py:14-16) -/
+
+/-- what `.` can run over: up to the first newline (no DOTALL flag) -/
+def firstLine (cs : Str) : Str := cs.takeWhile (· ≠ '\n')
+
+/-- everything before the last `}` of `cs` (`none`: there is no `}`) -/
+def beforeLastBrace : Str → Option Str
+  | [] => none
+  | c :: cs =>
+    match beforeLastBrace cs with
+    | some r => some (c :: r)
+    | none => if c = '}' then some [] else none
+
+/-- `(.+)\}` matched at the start of `cs`: greedy `.+` backtracks to the last `}` of the first
+line; the group must not be empty. -/
+def group (cs : Str) : Option Str :=
+  match beforeLastBrace (firstLine cs) with
+  | some (c :: r) => some (c :: r)
+  | _ => none
+
+def stripPrefix : Str → Str → Option Str
+  | [], cs => some cs
+  | _ :: _, [] => none
+  | p :: ps, c :: cs => if p = c then stripPrefix ps cs else none
+
+/-- `re.compile(marker + r'(.+)\}').match(cs)`: anchored at position 0 only -/
+def reMatch (marker cs : Str) : Option Str := (stripPrefix marker cs).bind group
+
+def objMarker : Str := ['$', '{']
+def resMarker : Str := ['$', 'r', 'e', 's', '{']
+def handleMarker : Str := ['$', 'h', 'a', 'n', 'd', 'l', 'e', '{']
+
+def splitOn (sep : Char) : Str → List Str
+  | [] => [[]]
+  | c :: cs =>
+    match splitOn sep cs with
+    | [] => if c = sep then [[], []] else [[c]]
+    | w :: ws => if c = sep then [] :: w :: ws else (c :: w) :: ws
+
+def joinWith (sep : Char) : List Str → Str
+  | [] => []
+  | [w] => w
+  | w :: ws => w ++ sep :: joinWith sep ws
+
+/-- `root_map.split_char.join(name.split('.'))` : model/world.py:335,341 -/
+def resPath (name : Str) : Str := joinWith '/' (splitOn '.' name)
+
+/-! ### data -/
+
+inductive Json where
+  | null
+  | bool (b : Bool)
+  | int (i : Int)
+  | str (s : Str)
+  | list (l : List Json)
+  | obj (o : List (Str × Json))
+deriving Inhabited
+
+/-- a Python value as far as the loader can tell values apart -/
+inductive Val where
+  | json (j : Json)
+  /-- a class of the program (class id) -/
+  | cls (c : Nat)
+  /-- any other named object of the program (module, instance, ...) -/
+  | obj (o : Nat)
+  /-- the value `handle()` of the handle `h` of the resource tree -/
+  | loaded (h : Nat)
+  | handle (h : Nat)
+  /-- a sub-map of the resource tree -/
+  | map (m : Nat)
+  /-- the world handle that is being loaded -/
+  | worldHandle
+deriving Inhabited
+
+inductive EntId where
+  | int (i : Int)
+  | str (s : Str)
+deriving DecidableEq, Inhabited
+
+/-- `{'type': .., 'args': [..], 'kwargs': {..}}`; `label` names the instance built from it -/
+structure Item where
+  label : Nat
+  type : Val
+  args : List Val
+  kwargs : List (Str × Val)
+deriving Inhabited
+
+structure Desc where
+  processors : List Item
+  entities : List (Option EntId × List Item)
+deriving Inhabited
+
+structure ClsInfo where
+  isProc : Bool
+  /-- `__events__` (`none`: the attribute is absent) -/
+  events : Option (Dict Str Str)
+  priority : Int
+deriving Inhabited
+
+structure Universe where
+  resolve : Str → Except Exc Val
+  getItem : Str → Except Exc Val
+  getHandle : Str → Val
+  inTree : Bool
+  /-- classes of the program; ids 0 and 1 are reserved, see `infoOf` -/
+  userInfo : Nat → Option ClsInfo
+
+def clsOnUpdate : Nat := 0
+def clsCoroutine : Nat := 1
+
+/-- `desper.OnUpdateProcessor` and `desper.CoroutineProcessor` are class 0 and class 1: plain
+processors (no `__events__`) of priority 0 (logic/__init__.py:333, logic/coroutines.py:63). -/
+def infoOf (U : Universe) (c : Nat) : Option ClsInfo :=
+  if c = clsOnUpdate ∨ c = clsCoroutine then some { isProc := true, events := none, priority := 0 }
+  else U.userInfo c
+
+def eventsOf (U : Universe) (c : Nat) : Option (Dict Str Str) := (infoOf U c).bind (·.events)
+def prioOf (U : Universe) (c : Nat) : Int := ((infoOf U c).map (·.priority)).getD 0
+def isProc (U : Universe) (c : Nat) : Bool := ((infoOf U c).map (·.isProc)).getD false
+
+/-! ### dict transformers (model/world.py:251-350) -/
+
+def mapE {α β : Type} (f : α → Except Exc β) : List α → Except Exc (List β)
+  | [] => .ok []
+  | a :: as =>
+    match f a with
+    | .error e => .error e
+    | .ok b =>
+      match mapE f as with
+      | .error e => .error e
+      | .ok bs => .ok (b :: bs)
+
+/-- `callable(type_object)`: classes are, the other named objects of a scenario are not -/
+def callable : Val → Bool
+  | .cls _ => true
+  | _ => false
+
+/-- model/world.py:251-264 -/
+def typeT (U : Universe) (d : Item) : Except Exc Item :=
+  match d.type with
+  | .json (.str t) =>
+    match U.resolve t with
+    | .error e => .error e
+    | .ok v => if callable v then .ok { d with type := v } else .error "TypeError"
+  | _ => .error "AssertionError"
+
+/-- `map_function` of `object_dict_transformer`: model/world.py:279-287 -/
+def objectMap (U : Universe) : Val → Except Exc Val
+  | .json (.str s) =>
+    match reMatch objMarker s with
+    | some name => U.resolve name
+    | none => .ok (.json (.str s))
+  | v => .ok v
+
+/-- `map_function` of `resource_dict_transformer`: model/world.py:328-344.  The world handle must
+hang in a ResourceMap only when a reference is actually met (`get_root_map`, 315-326). -/
+def resourceMap (U : Universe) : Val → Except Exc Val
+  | .json (.str s) =>
+    match reMatch resMarker s with
+    | some name => if U.inTree then U.getItem (resPath name) else .error "TypeError"
+    | none =>
+      match reMatch handleMarker s with
+      | some name => if U.inTree then .ok (U.getHandle (resPath name)) else .error "TypeError"
+      | none => .ok (.json (.str s))
+  | v => .ok v
+
+/-- `args_list[:] = map(f, args_list); kwargs_map.update({k: f(v) for k, v in kwargs_map.items()})`
+(model/world.py:289-293, 346-350): only the arguments themselves are mapped, strings nested in
+lists or dictionaries are not looked at. -/
+def mapArgs (f : Val → Except Exc Val) (d : Item) : Except Exc Item :=
+  match mapE f d.args with
+  | .error e => .error e
+  | .ok args =>
+    match mapE (fun (kv : Str × Val) => (f kv.2).map (fun v => (kv.1, v))) d.kwargs with
+    | .error e => .error e
+    | .ok kwargs => .ok { d with args := args, kwargs := kwargs }
+
+def objectT (U : Universe) (d : Item) : Except Exc Item := mapArgs (objectMap U) d
+def resourceT (U : Universe) (d : Item) : Except Exc Item := mapArgs (resourceMap U) d
+
+/-- what one argument goes through: object transformer, then resource transformer -/
+def transformArg (U : Universe) (v : Val) : Except Exc Val :=
+  match objectMap U v with
+  | .error e => .error e
+  | .ok v' => resourceMap U v'
+
+/-- `_apply_transformers` with the transformers of `WorldFromFileHandle` in their order
+(model/world.py:143-160, 210-215).  The snapshot handed to each transformer as `initial_dict`
+copies the JSON containers only, so it has no effect on the result; an exception is re-raised
+with the same class. -/
+def applyTransformers (U : Universe) (d : Item) : Except Exc Item :=
+  match typeT U d with
+  | .error e => .error e
+  | .ok d1 =>
+    match objectT U d1 with
+    | .error e => .error e
+    | .ok d2 => resourceT U d2
+
+def transformEntity (U : Universe) (e : Option EntId × List Item) :
+    Except Exc (Option EntId × List Item) :=
+  (mapE (applyTransformers U) e.2).map (fun cs => (e.1, cs))
+
+/-- model/world.py:132-139: every processor dictionary, then every component dictionary -/
+def transformDesc (U : Universe) (d : Desc) : Except Exc Desc :=
+  match mapE (applyTransformers U) d.processors with
+  | .error e => .error e
+  | .ok ps =>
+    match mapE (transformEntity U) d.entities with
+    | .error e => .error e
+    | .ok es => .ok { processors := ps, entities := es }
+
+/-! ### the world (logic/world.py) -/
+
+inductive Label where
+  | dflt (k : Nat)
+  | item (n : Nat)
+deriving DecidableEq, Inhabited
+
+/-- an instance: the class and the arguments its constructor was called with -/
+structure Inst where
+  label : Label
+  cls : Nat
+  args : List Val
+  kwargs : List (Str × Val)
+deriving Inhabited
+
+inductive CbArgs where
+  /-- `on_add()` of a processor -/
+  | none
+  /-- `on_add(entity, world)` -/
+  | entWorld (e : EntId)
+  /-- `on_world_load(handle, world)` -/
+  | handleWorld
+deriving DecidableEq, Inhabited
+
+inductive Ev where
+  /-- `dispatch('on_single_dispatch', event, handler, *args)` -/
+  | single (event : Str) (h : Inst) (args : CbArgs)
+  /-- `dispatch('on_world_load', handle, world)` -/
+  | worldLoad
+deriving Inhabited
+
+structure Entry where
+  recv : Label
+  meth : Str
+  args : CbArgs
+deriving DecidableEq, Inhabited
+
+structure World where
+  /-- `_sorted_processors` -/
+  sorted : List Inst := []
+  /-- `_processors` -/
+  procs : Dict Nat Inst := []
+  /-- `_entities` -/
+  entities : Dict EntId (Dict Nat Inst) := []
+  /-- next value of `count(1)` -/
+  nextAuto : Nat := 1
+  enabled : Bool := true
+  queue : List Ev := []
+  /-- registered handlers, in registration order -/
+  handlers : List Inst := []
+  log : List Entry := []
+  /-- exception that escaped from releasing the queue -/
+  failed : Option Exc := none
+deriving Inhabited
+
+def onAdd : Str := "on_add".toList
+def onRemove : Str := "on_remove".toList
+def onWorldLoad : Str := "on_world_load".toList
+
+/-- `getattr(handler, handler.__events__[event])(*args)` : `World._on_single_dispatch` -/
+def callMapped (U : Universe) (w : World) (event : Str) (h : Inst) (a : CbArgs) : World :=
+  match (eventsOf U h.cls).bind (fun m => Dict.get? m event) with
+  | some meth => { w with log := w.log ++ [⟨h.label, meth, a⟩] }
+  | none => { w with failed := some "KeyError" }
+
+/-- delivery of one event to its listeners (events.py:115-116; the listener set is visited in
+registration order here, Python leaves the order open) -/
+def deliver (U : Universe) (w : World) : Ev → World
+  | .single event h a => callMapped U w event h a
+  | .worldLoad =>
+    (w.handlers.filter (fun h => ((eventsOf U h.cls).bind (fun m => Dict.get? m onWorldLoad)).isSome)).foldl
+      (fun w h => callMapped U w onWorldLoad h .handleWorld) w
+
+/-- the lifecycle idiom of logic/world.py "call directly when enabled, else relay through
+on_single_dispatch" -/
+def emit (U : Universe) (w : World) (event : Str) (h : Inst) (a : CbArgs) : World :=
+  if w.enabled then callMapped U w event h a
+  else { w with queue := w.queue ++ [.single event h a] }
+
+def hasEvent (U : Universe) (c : Nat) (event : Str) : Bool :=
+  ((eventsOf U c).bind (fun m => Dict.get? m event)).isSome
+
+/-- `bisect.insort(self._sorted_processors, processor, key=priority)`: on a sorted list the
+bisection finds the end of the run of elements that are not greater. -/
+def insort (U : Universe) (l : List Inst) (p : Inst) : List Inst :=
+  l.takeWhile (fun q => prioOf U q.cls ≤ prioOf U p.cls) ++ p ::
+    l.dropWhile (fun q => prioOf U q.cls ≤ prioOf U p.cls)
+
+/-- `remove_processor` for a type that is registered itself (the only way the loader gets here:
+`add_processor` found the exact type in `_processors`, so the subclass walk stops at once) -/
+def removeProcessor (U : Universe) (w : World) (c : Nat) : World :=
+  match Dict.get? w.procs c with
+  | none => w
+  | some removed =>
+    let w := { w with sorted := w.sorted.filter (fun p => p.cls ≠ c), procs := Dict.erase w.procs c }
+    match eventsOf U c with
+    | none => w
+    | some m =>
+      let w := if (Dict.get? m onRemove).isSome then emit U w onRemove removed .none else w
+      { w with handlers := w.handlers.filter (fun h => h.label ≠ removed.label) }
+
+/-- `World.add_processor(processor)` -/
+def addProcessor (U : Universe) (w : World) (p : Inst) : World :=
+  let w := if Dict.contains w.procs p.cls then removeProcessor U w p.cls else w
+  let w := { w with sorted := insort U w.sorted p, procs := Dict.set w.procs p.cls p }
+  match eventsOf U p.cls with
+  | none => w
+  | some m =>
+    let w := { w with handlers := w.handlers ++ [p] }
+    if (Dict.get? m onAdd).isSome then emit U w onAdd p .none else w
+
+def setComp (ents : Dict EntId (Dict Nat Inst)) (e : EntId) (c : Inst) : Dict EntId (Dict Nat Inst) :=
+  Dict.set ents e (Dict.set ((Dict.get? ents e).getD []) c.cls c)
+
+/-- the event handling loop of `create_entity`, one component.  (Two components of one type in a
+single call: both are registered and both get `on_add`, the table keeps the second; CPython then
+drops the first, which nothing references any more, from the weakly held listeners — outside the
+well-formed descriptions and not modelled.) -/
+def registerComp (U : Universe) (e : EntId) (w : World) (c : Inst) : World :=
+  match eventsOf U c.cls with
+  | none => w
+  | some m =>
+    let w := { w with handlers := w.handlers ++ [c] }
+    if (Dict.get? m onAdd).isSome then emit U w onAdd c (.entWorld e) else w
+
+/-- `remove_component(entity, component_type)` for a type the entity owns itself (the subclass
+walk finds it first) -/
+def removeComponent (U : Universe) (w : World) (e : EntId) (c : Nat) : World :=
+  match (Dict.get? w.entities e).bind (fun row => Dict.get? row c) with
+  | none => w
+  | some removed =>
+    let row := Dict.erase ((Dict.get? w.entities e).getD []) c
+    let w := { w with entities := if row.isEmpty then Dict.erase w.entities e else Dict.set w.entities e row }
+    match eventsOf U c with
+    | none => w
+    | some m =>
+      let w := if (Dict.get? m onRemove).isSome then emit U w onRemove removed (.entWorld e) else w
+      { w with handlers := w.handlers.filter (fun h => h.label ≠ removed.label) }
+
+/-- `next(self.id_generator)` until the identifier is not in use; at most `fuel` identifiers can
+be in use -/
+def nextFree (ents : Dict EntId (Dict Nat Inst)) : Nat → Nat → Nat
+  | n, 0 => n
+  | n, fuel + 1 => if Dict.contains ents (.int n) then nextFree ents (n + 1) fuel else n
+
+/-- `World.create_entity(*components, entity_id=eid)` -/
+def createEntity (U : Universe) (w : World) (eid : Option EntId) (comps : List Inst) : World :=
+  let (e, w) := match eid with
+    | some e => (e, w)
+    | none =>
+      let n := nextFree w.entities w.nextAuto (w.entities.length + 1)
+      (EntId.int n, { w with nextAuto := n + 1 })
+  -- components of an identifier in use that are about to be replaced
+  let w := (((Dict.get? w.entities e).getD []).keys.filter (fun c => comps.any (fun x => x.cls = c))).foldl
+    (fun w c => removeComponent U w e c) w
+  let w := { w with entities := comps.foldl (fun ents c => setComp ents e c) w.entities }
+  comps.foldl (registerComp U e) w
+
+def instOf (d : Item) (c : Nat) : Inst := ⟨.item d.label, c, d.args, d.kwargs⟩
+
+/-- `processor_dict['type'](*args, **kwargs)` : calling anything but a class of the scenario is
+outside the model -/
+def construct (d : Item) : Except Exc Inst :=
+  match d.type with
+  | .cls c => .ok (instOf d c)
+  | _ => .error "TypeError"
+
+/-- model/world.py:98-101 -/
+def populateProcs (U : Universe) : World → List Item → Except Exc World
+  | w, [] => .ok w
+  | w, d :: ds =>
+    match construct d with
+    | .error e => .error e
+    | .ok p =>
+      -- `assert isinstance(processor, Processor)` in `add_processor`
+      if isProc U p.cls then populateProcs U (addProcessor U w p) ds else .error "AssertionError"
+
+/-- model/world.py:103-112 -/
+def populateEnts (U : Universe) : World → List (Option EntId × List Item) → Except Exc World
+  | w, [] => .ok w
+  | w, (eid, cds) :: es =>
+    match mapE construct cds with
+    | .error e => .error e
+    | .ok comps => populateEnts U (createEntity U w eid comps) es
+
+/-- `populate_world_from_dict` : model/world.py:63-112 -/
+def populate (U : Universe) (w : World) (d : Desc) : Except Exc World :=
+  match populateProcs U w d.processors with
+  | .error e => .error e
+  | .ok w => populateEnts U w d.entities
+
+def defaultInsts : List Inst :=
+  [⟨.dflt 0, clsOnUpdate, [], []⟩, ⟨.dflt 1, clsCoroutine, [], []⟩]
+
+/-- model/world.py:180-190 -/
+def defaultProcessors (U : Universe) (w : World) : World :=
+  defaultInsts.foldl (addProcessor U) w
+
+/-- `WorldFromFileTransformer.__call__` : model/world.py:127-141 -/
+def fileTransformer (U : Universe) (w : World) (d : Desc) : Except Exc World :=
+  match transformDesc U d with
+  | .error e => .error e
+  | .ok td => populate U w td
+
+/-- `WorldHandle.load` : model/world.py:43-60.  `dispatch` drops the event when nobody ever
+listened for it (events.py:105); no listener exists at release time either in that case, so
+queueing it unconditionally gives the same callbacks. -/
+def loadHandle (transform : World → Except Exc World) : Except Exc World :=
+  match transform { enabled := false } with
+  | .error e => .error e
+  | .ok w => .ok { w with queue := w.queue ++ [.worldLoad] }
+
+/-- `WorldFromFileHandle(filename).load()` : model/world.py:193-215 -/
+def loadFile (U : Universe) (d : Desc) : Except Exc World :=
+  loadHandle (fun w => fileTransformer U (defaultProcessors U w) d)
+
+/-- a `WorldHandle` whose only transform function calls `populate_world_from_dict` -/
+def loadDict (U : Universe) (d : Desc) : Except Exc World :=
+  loadHandle (fun w => populate U w d)
+
+/-- queue depletion of `dispatch_enabled = True` : events.py:133-139 (callbacks are passive, so
+the dispatcher stays enabled; an escaping exception leaves the rest of the queue pending) -/
+def release (U : Universe) : World → List Ev → World
+  | w, [] => { w with queue := [] }
+  | w, ev :: rest =>
+    let w' := deliver U { w with queue := rest } ev
+    if w'.failed.isSome then w' else release U w' rest
+
+def setEnabled (U : Universe) (w : World) (b : Bool) : World :=
+  let w := { w with enabled := b }
+  if b then release U w w.queue else w
+
+/-! ### line protocol -/
+open Proto
+
+def hexVal (c : Char) : Option Nat :=
+  if '0' ≤ c ∧ c ≤ '9' then some (c.toNat - '0'.toNat)
+  else if 'A' ≤ c ∧ c ≤ 'F' then some (c.toNat - 'A'.toNat + 10)
+  else none
+
+def pctDecode : Str → Option Str
+  | [] => some []
+  | '%' :: a :: b :: rest =>
+    match hexVal a, hexVal b, pctDecode rest with
+    | some x, some y, some r => some (Char.ofNat (16 * x + y) :: r)
+    | _, _, _ => none
+  | '%' :: _ => none
+  | c :: rest => (pctDecode rest).map (c :: ·)
+
+def hexDigit (n : Nat) : Char :=
+  if n < 10 then Char.ofNat ('0'.toNat + n) else Char.ofNat ('A'.toNat + n - 10)
+
+def safeChar (c : Char) : Bool :=
+  c.isAlphanum || c = '_' || c = '.' || c = '$' || c = '/' || c = '{' || c = '}' || c = '-'
+
+def pctEncode (s : Str) : String :=
+  String.ofList (s.flatMap fun c =>
+    if safeChar c then [c] else ['%', hexDigit (c.toNat / 16 % 16), hexDigit (c.toNat % 16)])
+
+def decTok (t : String) : Option Str := pctDecode t.toList
+
+/-- `d[k] = v` for every pair, as `json.load` does for repeated keys -/
+def dictOfPairs {ν : Type} (l : List (Str × ν)) : List (Str × ν) :=
+  l.foldl (fun d kv => Dict.set d kv.1 kv.2) []
+
+mutual
+def parseJson : Nat → List String → Option (Json × List String)
+  | 0, _ => none
+  | _, [] => none
+  | fuel + 1, t :: rest =>
+    match t.toList with
+    | ['n'] => some (.null, rest)
+    | ['t'] => some (.bool true, rest)
+    | ['f'] => some (.bool false, rest)
+    | 'i' :: ds => (String.ofList ds).toInt?.map (fun i => (.int i, rest))
+    | 's' :: cs => (pctDecode cs).map (fun s => (.str s, rest))
+    | 'L' :: ds =>
+      match (String.ofList ds).toNat? with
+      | some n => (parseJsons fuel n rest).map (fun r => (.list r.1, r.2))
+      | none => none
+    | 'O' :: ds =>
+      match (String.ofList ds).toNat? with
+      | some n => (parsePairs fuel n rest).map (fun r => (.obj (dictOfPairs r.1), r.2))
+      | none => none
+    | _ => none
+def parseJsons : Nat → Nat → List String → Option (List Json × List String)
+  | 0, _, _ => none
+  | _, 0, rest => some ([], rest)
+  | fuel + 1, n + 1, toks =>
+    match parseJson fuel toks with
+    | none => none
+    | some (j, rest) => (parseJsons fuel n rest).map (fun r => (j :: r.1, r.2))
+def parsePairs : Nat → Nat → List String → Option (List (Str × Json) × List String)
+  | 0, _, _ => none
+  | _, 0, rest => some ([], rest)
+  | _, _ + 1, [] => none
+  | fuel + 1, n + 1, k :: toks =>
+    match k.toList with
+    | 'k' :: kc =>
+      match pctDecode kc, parseJson fuel toks with
+      | some key, some (j, rest) => (parsePairs fuel n rest).map (fun r => ((key, j) :: r.1, r.2))
+      | _, _ => none
+    | _ => none
+end
+
+mutual
+def showJson : Json → List String
+  | .null => ["n"]
+  | .bool true => ["t"]
+  | .bool false => ["f"]
+  | .int i => [s!"i{i}"]
+  | .str s => ["s" ++ pctEncode s]
+  | .list l => s!"L{l.length}" :: showJsons l
+  | .obj o => s!"O{o.length}" :: showPairs o
+def showJsons : List Json → List String
+  | [] => []
+  | j :: js => showJson j ++ showJsons js
+def showPairs : List (Str × Json) → List String
+  | [] => []
+  | (k, v) :: r => ("k" ++ pctEncode k) :: (showJson v ++ showPairs r)
+end
+
+def showVal : Val → List String
+  | .json j => showJson j
+  | .cls c => [s!"C{c}"]
+  | .obj o => [s!"P{o}"]
+  | .loaded h => [s!"R{h}"]
+  | .handle h => [s!"H{h}"]
+  | .map m => [s!"M{m}"]
+  | .worldHandle => ["HW"]
+
+def showEntId : EntId → String
+  | .int i => s!"i{i}"
+  | .str s => "s" ++ pctEncode s
+
+def showLabel : Label → String
+  | .dflt k => s!"d{k}"
+  | .item n => s!"i{n}"
+
+def showCbArgs : CbArgs → String
+  | .none => "()"
+  | .entWorld e => s!"E{showEntId e},W"
+  | .handleWorld => "HW,W"
+
+def showInst (i : Inst) : String :=
+  " ".intercalate ([s!"inst {showLabel i.label} C{i.cls} A{i.args.length}"] ++ i.args.flatMap showVal ++
+    [s!"K{i.kwargs.length}"] ++ i.kwargs.flatMap (fun kv => ("k" ++ pctEncode kv.1) :: showVal kv.2))
+
+def showInstRef (i : Inst) : String := s!"{showLabel i.label}:C{i.cls}"
+
+/-- `<n>`, or `-` for a key that is absent from the dictionary (`.get('args', [])`) -/
+def count? (ds : Str) : Option Nat :=
+  if ds = ['-'] then some 0 else (String.ofList ds).toNat?
+
+/-- `A<n> v.. K<m> k v ..` -/
+def parseArgs (toks : List String) : Option (List Json × List (Str × Json)) :=
+  match toks with
+  | a :: rest =>
+    match a.toList with
+    | 'A' :: ds =>
+      match count? ds with
+      | none => none
+      | some n =>
+        match parseJsons 1000 n rest with
+        | some (args, k :: rest2) =>
+          match k.toList with
+          | 'K' :: ds2 =>
+            match count? ds2 with
+            | none => none
+            | some m =>
+              match parsePairs 1000 m rest2 with
+              | some (kw, []) => some (args, dictOfPairs kw)
+              | _ => none
+          | _ => none
+        | _ => none
+    | _ => none
+  | [] => none
+
+inductive Mode where
+  | file
+  | dict
+  | direct
+deriving DecidableEq, Inhabited
+
+inductive Node where
+  | handle (h : Nat)
+  | map (m : Nat)
+  | world
+deriving Inhabited
+
+structure Parsed where
+  classes : Dict Nat ClsInfo := []
+  names : Dict Str Val := []
+  moduleName : Str := []
+  tree : Dict Str Node := []
+  mode : Mode := .file
+  inTree : Bool := true
+  procs : List Item := []
+  ents : List (Option EntId × List Item) := []
+  rx : List Str := []
+  nextLabel : Nat := 0
+  bad : Bool := false
+deriving Inhabited
+
+def parseEvents (s : String) : Option (Option (Dict Str Str)) :=
+  if s = "none" then some none else
+  ((splitList s).mapM (fun (t : String) => match (t.splitOn ":" : List String) with
+    | [a, b] => some (String.toList a, String.toList b)
+    | _ => none)).map some
+
+def stripPfx (p s : String) : Option String :=
+  if s.startsWith p then some (s.drop p.length).toString else none
+
+def parseEntId (t : String) : Option (Option EntId) :=
+  match t.toList with
+  | ['-'] => some none
+  | 'i' :: ds => (String.ofList ds).toInt?.map (fun i => some (.int i))
+  | 's' :: cs => (pctDecode cs).map (fun s => some (.str s))
+  | _ => none
+
+def mkItem (p : Parsed) (ty : Val) (args : List Json) (kw : List (Str × Json)) : Item :=
+  { label := p.nextLabel, type := ty, args := args.map .json, kwargs := kw.map (fun kv => (kv.1, .json kv.2)) }
+
+/-- in the dictionary modes the description holds the classes themselves -/
+def typeVal (p : Parsed) (name : Str) : Option Val :=
+  if p.mode = .file then some (.json (.str name))
+  else match Dict.get? p.names name with
+    | some (.cls c) => some (.cls c)
+    | _ => none
+
+def parseLine (p : Parsed) (line : String) : Parsed :=
+  match tokens line with
+  | ["cls", cid, kind, pr, ev] =>
+    match cid.toNat?, (stripPfx "prio=" pr).bind String.toInt?, (stripPfx "ev=" ev).bind parseEvents with
+    | some c, some prio, some evs =>
+      if c < 2 ∨ (kind ≠ "proc" ∧ kind ≠ "comp") then { p with bad := true } else
+      { p with classes := Dict.set p.classes c { isProc := kind = "proc", events := evs, priority := prio } }
+    | _, _, _ => { p with bad := true }
+  | ["module", m] =>
+    match decTok m with
+    | some m => { p with moduleName := m }
+    | none => { p with bad := true }
+  | ["name", n, "cls", c] =>
+    match decTok n, c.toNat? with
+    | some n, some c => { p with names := Dict.set p.names n (.cls c) }
+    | _, _ => { p with bad := true }
+  | ["name", n, "obj", o, _copy] =>
+    match decTok n, o.toNat? with
+    | some n, some o => { p with names := Dict.set p.names n (.obj o) }
+    | _, _ => { p with bad := true }
+  | ["name", n, "str", s] =>
+    match decTok n, s.toList with
+    | some n, 's' :: cs =>
+      match pctDecode cs with
+      | some v => { p with names := Dict.set p.names n (.json (.str v)) }
+      | none => { p with bad := true }
+    | _, _ => { p with bad := true }
+  | ["tree", path, "handle", h] =>
+    match decTok path, h.toNat? with
+    | some path, some h => { p with tree := Dict.set p.tree path (.handle h) }
+    | _, _ => { p with bad := true }
+  | ["tree", path, "map", m] =>
+    match decTok path, m.toNat? with
+    | some path, some m => { p with tree := Dict.set p.tree path (.map m) }
+    | _, _ => { p with bad := true }
+  | "tree" :: path :: "world" :: _ =>
+    match decTok path with
+    | some path => { p with tree := Dict.set p.tree path .world }
+    | none => { p with bad := true }
+  | ["mode", "file", "intree"] => { p with mode := .file, inTree := true }
+  | ["mode", "file", "bare"] => { p with mode := .file, inTree := false }
+  | ["mode", "dict"] => { p with mode := .dict }
+  | ["mode", "direct"] => { p with mode := .direct }
+  | "proc" :: ty :: rest =>
+    match decTok ty, parseArgs rest with
+    | some ty, some (args, kw) =>
+      match typeVal p ty with
+      | some tv => { p with procs := p.procs ++ [mkItem p tv args kw], nextLabel := p.nextLabel + 1 }
+      | none => { p with bad := true }
+    | _, _ => { p with bad := true }
+  | ["ent", id] =>
+    match parseEntId id with
+    | some eid => { p with ents := p.ents ++ [(eid, [])] }
+    | none => { p with bad := true }
+  | "comp" :: ty :: rest =>
+    match decTok ty, parseArgs rest, p.ents.getLast? with
+    | some ty, some (args, kw), some (eid, cs) =>
+      match typeVal p ty with
+      | some tv =>
+        { p with ents := p.ents.dropLast ++ [(eid, cs ++ [mkItem p tv args kw])], nextLabel := p.nextLabel + 1 }
+      | none => { p with bad := true }
+    | _, _, _ => { p with bad := true }
+  | ["rx", s] =>
+    match s.toList with
+    | 's' :: cs =>
+      match pctDecode cs with
+      | some v => { p with rx := p.rx ++ [v] }
+      | none => { p with bad := true }
+    | _ => { p with bad := true }
+  | [] => p
+  | _ => { p with bad := true }
+
+/-- what `object_from_string` does with a name the scenario does not declare: the first
+component is imported (`ValueError` when empty, `ModuleNotFoundError` unless it is the scenario's
+module), every further component is a `getattr` (`AttributeError`). -/
+def resolveDefault (moduleName name : Str) : Exc :=
+  match splitOn '.' name with
+  | [] :: _ => "ValueError"
+  | h :: _ => if h = moduleName then "AttributeError" else "ModuleNotFoundError"
+  | [] => "ValueError"
+
+def Parsed.universe (p : Parsed) : Universe where
+  resolve := fun n => match Dict.get? p.names n with
+    | some v => .ok v
+    | none => .error (resolveDefault p.moduleName n)
+  getItem := fun path => match Dict.get? p.tree path with
+    | some (.handle h) => .ok (.loaded h)
+    | some (.map m) => .ok (.map m)
+    | some .world => .error "RecursionError"
+    | none => .error "KeyError"
+  getHandle := fun path => match Dict.get? p.tree path with
+    | some (.handle h) => .handle h
+    | some (.map m) => .map m
+    | some .world => .worldHandle
+    | none => .json .null
+  inTree := p.inTree
+  userInfo := fun c => Dict.get? p.classes c
+
+def showGroup : Option Str → String
+  | none => "-"
+  | some g => "s" ++ pctEncode g
+
+def showRx (s : Str) : String :=
+  s!"rx {showGroup (reMatch objMarker s)} {showGroup (reMatch resMarker s)} {showGroup (reMatch handleMarker s)}"
+
+def isItemLabel : Label → Bool
+  | .item _ => true
+  | .dflt _ => false
+
+/-- handles whose `load()` ran: every `$res{..}` of the description that named a handle -/
+def loadedOf (td : Desc) : List Nat :=
+  let items := td.processors ++ td.entities.flatMap (·.2)
+  let vals := items.flatMap (fun i => i.args ++ i.kwargs.map (·.2))
+  sortNats ((vals.filterMap (fun v => match v with | .loaded h => some h | _ => none)).eraseDups)
+
+/-- callbacks of the `on_world_load` delivery come out of a `set`: sorted -/
+def sortLabels (l : List Entry) : List Entry :=
+  let key : Entry → Nat := fun e => match e.recv with | .dflt k => k | .item n => n + 2
+  l.foldl (fun acc x => acc.takeWhile (fun y => key y ≤ key x) ++ [x] ++ acc.dropWhile (fun y => key y ≤ key x)) []
+
+def canonLog (l : List Entry) : List Entry :=
+  let rec go (run : List Entry) : List Entry → List Entry
+    | [] => sortLabels run
+    | e :: rest =>
+      if e.args = .handleWorld then go (run ++ [e]) rest
+      else sortLabels run ++ e :: go [] rest
+  go [] l
+
+def showEntry (e : Entry) : String :=
+  s!"cb {showLabel e.recv} {String.ofList e.meth} {showCbArgs e.args}"
+
+def showWorld (p : Parsed) (w : World) : List String :=
+  let comps := w.entities.flatMap (fun e => e.2.map (·.2))
+  [s!"enabled {showBool w.enabled}",
+   "procs " ++ joinList (w.sorted.map showInstRef),
+   "ents " ++ joinList (w.entities.map (fun e => showEntId e.1))] ++
+  w.entities.map (fun e => s!"ent {showEntId e.1} " ++ joinList (e.2.map (fun c => showInstRef c.2))) ++
+  ((w.sorted ++ comps).filter (fun i => isItemLabel i.label)).map showInst ++
+  (match p.mode, transformDesc p.universe { processors := p.procs, entities := p.ents } with
+   | .file, .ok td => ["loaded " ++ showNats (loadedOf td)]
+   | _, _ => [])
+
+def runScenario (lines : List String) : List String :=
+  let p := lines.foldl parseLine {}
+  if p.bad then ["bad-op"] else
+  let U := p.universe
+  let d : Desc := { processors := p.procs, entities := p.ents }
+  let rxLines := p.rx.map showRx
+  let res := match p.mode with
+    | .file => loadFile U d
+    | .dict => loadDict U d
+    | .direct => populate U {} d
+  match res with
+  | .error e => rxLines ++ [s!"res raised {e}"]
+  | .ok w =>
+    let pre := w.log.length
+    let w2 := if p.mode = .direct then w else setEnabled U w true
+    rxLines ++ ["res ok"] ++ showWorld p w ++ [s!"pre {pre}"] ++
+      (if p.mode = .direct then [] else
+        [match w2.failed with | some e => s!"res-enable raised {e}" | none => "res-enable ok"]) ++
+      (canonLog w2.log).map showEntry
+
 end Desper.Loader
